@@ -264,6 +264,37 @@ def leaves(e):
     return leaves(e["l"]) + leaves(e["r"])
 
 
+def check_saved(ctx, r, scratch):
+    """Trusted payloads must also reach the file written by save_html verbatim."""
+    import locale
+    import os
+
+    if "utf" not in locale.getpreferredencoding(False).lower():
+        ctx.count("save_html_skipped_non_utf8_locale")
+        return True
+    wit = {"recipe": r, "view": "save_html"}
+    obj = gen.build(r)
+    f = os.path.join(scratch, "c04-%d.html" % ctx.counters["oracle.verbatim_saved"])
+    ctx.count("oracle.verbatim_saved")
+    try:
+        obj.save_html(f)
+        with open(f, encoding="utf-8", newline="") as fh:
+            out = fh.read()
+    except Exception as e:
+        ctx.violation("render-raises", "save_html raised %r" % e, wit)
+        return False
+    finally:
+        try:
+            os.remove(f)
+        except OSError:
+            pass
+    for p in payloads_of(r):
+        if p and out.count(p) != 1:
+            ctx.violation("trusted-payload-not-verbatim", "save_html: trusted payload %r occurs %d times in the written file" % (p[:60], out.count(p)), dict(wit, output=out[:800]))
+            return False
+    return True
+
+
 def check_textdoc(ctx, payloads, in_script):
     """Trusted content of a dependency's head must reach an HTMLTextDocument rendering verbatim."""
     wit = {"payloads": payloads, "in_script": in_script}
@@ -292,11 +323,16 @@ def replay(ctx, w):
 
 
 def run(ctx):
+    import shutil
+    import tempfile
+
     escape.install(ctx)
+    ctx.scratch = tempfile.mkdtemp(prefix="hv-c04-")
     try:
         _run(ctx)
     finally:
         contracts.unpatch_all()
+        shutil.rmtree(ctx.scratch, ignore_errors=True)
 
 
 def _run(ctx):
@@ -349,6 +385,8 @@ def _run(ctx):
             # TagList(tag) lays out the tag by the sibling rule at level indent == tag at that level
             pass
         check_tree(ctx, r, ind, eol, view)
+        if rng.random() < 0.03 and "\r" not in "".join(payloads_of(r)):
+            ctx.guard(check_saved, ctx, r, ctx.scratch, witness={"recipe": r, "view": "save_html"})
         ps = payloads_of(r)
         ctx.case((r, view, ind, eol), nontrivial=any(set(p) & set("&<>\"'") for p in ps))
 
